@@ -116,6 +116,34 @@ def prefix_module(ll_path, prefix):
     return out
 
 
+def suffix_all_defined(ll_path, suffix, out):
+    """A copy of a linked module in which EVERY symbol it defines (functions, globals, aliases; any linkage) carries `suffix`:
+    two such copies linked together are two separate processes (each with its own statics) inside one encoding.
+    Declarations (runtime, libc, libstdc++ externals) stay shared."""
+    txt = open(ll_path).read()
+    names = set()
+    for m in re.finditer(r'^define\b[^@\n]*(@(?:"[^"]*"|[-\w.$]+))\s*\(', txt, re.M):
+        names.add(m.group(1))
+    for m in re.finditer(r'^(@(?:"[^"]*"|[-\w.$]+))\s*=', txt, re.M):
+        names.add(m.group(1))
+    names = {n for n in names if not n.lstrip('@"').startswith('llvm.')}
+
+    def ren(n):
+        return n[:-1] + suffix + '"' if n.endswith('"') else n + suffix
+
+    def rep(m):
+        n = m.group(0)
+        return ren(n) if n in names else n
+    txt = re.sub(r'@(?:"[^"]*"|[-\w.$]+)', rep, txt)
+
+    def rep2(m):
+        n = '@' + m.group(0)[1:]
+        return '$' + ren(n)[1:] if n in names else m.group(0)
+    txt = re.sub(r'\$(?:"[^"]*"|[-\w.$]+)', rep2, txt)
+    open(out, 'w').write(txt)
+    return out
+
+
 def link_ll(lls, out):
     r = sh([LLVM_LINK, '-S'] + lls + ['-o', out])
     if r.returncode != 0:
@@ -123,9 +151,9 @@ def link_ll(lls, out):
     return out
 
 
-def translate(ll, cfile):
+def translate(ll, cfile, opts=None):
     try:
-        code, info = ir2c.translate(open(ll).read())
+        code, info = ir2c.translate(open(ll).read(), opts)
     except ir2c.Unsupported as e:
         raise Inconclusive('ir2c: ' + str(e))
     open(cfile, 'w').write(code)
@@ -135,10 +163,12 @@ def translate(ll, cfile):
 class Module:
     """A translated module: harness TU(s) + library TUs -> one C file."""
 
-    def __init__(self, name, parts, outdir):
-        """parts: list of (src, cfg, extra_flags, prefix or None)"""
+    def __init__(self, name, parts, outdir, copies=None, ir2c_opts=None):
+        """parts: list of (src, cfg, extra_flags, prefix or None); copies: symbol suffixes -> the whole module is instantiated once per suffix"""
         self.name = name
         self.parts = parts
+        self.copies = copies
+        self.ir2c_opts = ir2c_opts
         self.outdir = os.path.join(outdir, name)
         self.cfile = None
         self.info = None
@@ -157,8 +187,11 @@ class Module:
                 ll = prefix_module(ll, pfx)
             lls.append(ll)
         linked = link_ll(lls, os.path.join(self.outdir, 'module.ll'))
+        if self.copies:
+            cps = [suffix_all_defined(linked, sfx, os.path.join(self.outdir, 'module%s.ll' % sfx)) for sfx in self.copies]
+            linked = link_ll(cps, os.path.join(self.outdir, 'module_copies.ll'))
         self.cfile = os.path.join(self.outdir, 'module.c')
-        self.info = translate(linked, self.cfile)
+        self.info = translate(linked, self.cfile, self.ir2c_opts)
         self.info['ir_lines'] = sum(1 for _ in open(linked))
         self.info['c_lines'] = sum(1 for _ in open(self.cfile))
         self.info['sources'] = [p[0] for p in self.parts]
